@@ -934,10 +934,14 @@ pub fn ref_sdes_tokenise(b: &[u8]) -> SdesRef {
                 return SdesRef::EitherUnchecked("item reaches into the padding");
             }
             let content = body[pos + 2..pos + 2 + l].to_vec();
-            let (prefix, value) = if ty == 8 {
-                if l == 0 {
-                    return SdesRef::MustReject("PRIV prefix length octet outside the item");
+            let (prefix, value) = if ty == 8 && l == 0 {
+                // a PRIV item without even a prefix length octet: no prefix "overruns its item", so the statement
+                // does not put it among the strings that must be rejected; it is not well-formed either
+                if lenient.is_none() {
+                    lenient = Some("PRIV item of length 0 (no prefix length octet)");
                 }
+                (Vec::new(), Vec::new())
+            } else if ty == 8 {
                 let pl = content[0] as usize;
                 if 1 + pl > l {
                     return SdesRef::MustReject("PRIV prefix overruns its item");
